@@ -40,6 +40,7 @@ type step struct {
 type replay struct {
 	Cfg   cfg    `json:"cfg"`
 	Steps []step `json:"steps"`
+	Sm    *smCase `json:"sm,omitempty"`
 }
 
 const fragMs = 1000
@@ -316,7 +317,7 @@ func runSeq(r *vk.Run, c cfg, steps []step) {
 	r.Class(fmt.Sprintf("cfg=%d/%d/%d/ao=%v segs=%d versions=%d", c.FragNum, c.DelThr, c.Cleanup, c.AudioOnly, len(w.created), len(w.versions)))
 	r.CovAdd("fs_operations_checked", int64(w.ops))
 	for _, v := range w.viol {
-		r.Violation(v.key, fmt.Sprintf("fragment_num=%d delete_threshold=%d cleanup_mode=%d audio_only=%v frames=[%s]: %s", c.FragNum, c.DelThr, c.Cleanup, c.AudioOnly, shape, v.what), replay{c, steps})
+		r.Violation(v.key, fmt.Sprintf("fragment_num=%d delete_threshold=%d cleanup_mode=%d audio_only=%v frames=[%s]: %s", c.FragNum, c.DelThr, c.Cleanup, c.AudioOnly, shape, v.what), replay{Cfg: c, Steps: steps})
 	}
 }
 
@@ -330,6 +331,16 @@ func main() {
 	if r.ReplayIn != "" {
 		var rp replay
 		r.LoadReplay(&rp)
+		if rp.Sm != nil {
+			vs, err := smRun(*rp.Sm)
+			if err != nil {
+				r.Violation("infra/sm-cleanup", err.Error(), rp)
+			}
+			for _, v := range vs {
+				r.Violation(v[:strings.IndexByte(v, ':')], v, rp)
+			}
+			r.Finish()
+		}
 		runSeq(r, rp.Cfg, rp.Steps)
 		r.Finish()
 	}
@@ -420,7 +431,7 @@ func main() {
 	var nseq int64
 	var capped int32
 	r.Cov("max_sequence_length", maxLen)
-	r.Sample(replay{jobs[len(jobs)/2].c, jobs[len(jobs)/2].s})
+	r.Sample(replay{Cfg: jobs[len(jobs)/2].c, Steps: jobs[len(jobs)/2].s})
 	vk.Par(len(jobs), 16, func(i int) {
 		c := jobs[i].c
 		// the prefixes themselves (every shorter sequence is a case too): each is run by the job
@@ -458,5 +469,7 @@ func main() {
 	if capped != 0 {
 		r.NotExhaustive("internal time budget hit before every sequence of the bound was run")
 	}
+	// (the worlds of this phase install their own file-system router: it comes after the muxer phase)
+	smCleanupPhase(r)
 	r.Finish()
 }
